@@ -48,9 +48,10 @@ func slow(m int) bool { return m == mLate || m == mNever || m == mDie || m == mF
 
 // Req is the request payload; Rep the reply. Both embed the request's unique id.
 type Req struct {
-	ID    int
-	Mode  int
-	After bool // stale material is sent after the proper reply instead of before it
+	ID      int
+	Mode    int
+	After   bool // stale material is sent after the proper reply instead of before it
+	ErrKind int  // mErr: 0 an error made for this request (its text carries the id), k > 0 the k-th well-known error value
 }
 
 type Rep struct {
@@ -74,6 +75,17 @@ type floodReq struct {
 }
 
 func errFor(id int) error { return fmt.Errorf("callee-error-%d", id) }
+
+// wellKnown: error values that travel between nodes as short codes instead of text
+var wellKnown = []error{gen.ErrProcessUnknown, gen.ErrProcessMailboxFull, gen.ErrProcessTerminated, gen.ErrMetaMailboxFull, gen.ErrNotAllowed, gen.ErrIncorrect}
+
+// errOf is the error the callee answers request r with in mode mErr.
+func errOf(r Req) error {
+	if r.ErrKind > 0 {
+		return wellKnown[(r.ErrKind-1)%len(wellKnown)]
+	}
+	return errFor(r.ID)
+}
 
 type calleeState struct {
 	mu       sync.Mutex
@@ -145,7 +157,7 @@ func (st *calleeState) onCall(a *kit.Actor, from gen.PID, ref gen.Ref, request a
 		a.Send(st.helper, deferred{From: from, Ref: ref, ID: r.ID, By: "helper"})
 		st.lastDone[from] = me
 	case mErr:
-		a.SendResponseError(from, ref, errFor(r.ID))
+		a.SendResponseError(from, ref, errOf(r))
 		st.lastDone[from] = me
 	case mTwice:
 		proper()
@@ -260,7 +272,7 @@ func (o callOp) String() string {
 }
 
 var recCorr = kit.NewRecorder("C07", "correlation",
-	"1-3 caller processes (on the callees' node, or in one of four cases on another node connected to it) run scripts of 2-6 calls (1 s timeout, 2 s across nodes) concurrently against 1-2 callee actors (by pid, name, alias), a meta-process callee and a pool of 2-3 worker actors that forwards requests (a worker that terminates is replaced when its turn comes again); per request the callee's generated reaction is one of {return value, explicit SendResponse, reply later from itself, reply from a third process, SendResponseError, reply twice, reply with the reference of an earlier completed request first, reply with another caller's outstanding reference addressed to this caller first, reply only when the caller's next request arrives (= late reply while the next call waits, before or after the proper reply), never, terminate without reply}; afterwards every withheld reply is flushed and each caller makes one more call per live callee; "+
+	"1-3 caller processes (on the callees' node, or in one of four cases on another node connected to it) run scripts of 2-6 calls (1 s timeout, 2 s across nodes) concurrently against 1-2 callee actors (by pid, name, alias; with or without split handling of named requests), a meta-process callee and a pool of 2-3 worker actors that forwards requests (a worker that terminates is replaced when its turn comes again); per request the callee's generated reaction is one of {return value, explicit SendResponse, reply later from itself, reply from a third process, SendResponseError (an error made for the request or a well-known error value), reply twice, reply with the reference of an earlier completed request first, reply with another caller's outstanding reference addressed to this caller first, reply only when the caller's next request arrives (= late reply while the next call waits, before or after the proper reply), never, terminate without reply}; afterwards every withheld reply is flushed and each caller makes one more call per live callee; "+
 		"oracle: a call returns the reply/error carrying ITS OWN id or a timeout/delivery error, never another id; modes that reply in time must return that reply (callee never terminated in the case), withheld ones must time out; each request id is seen by a callee at most once, exactly once when the call was accepted; "+
 		"non-trivial = a stale reply (late, duplicate, foreign or old reference) was handed to a caller that made a later call; distinct by scripts")
 
@@ -275,6 +287,7 @@ func TestCorrelation(t *testing.T) {
 		if remote {
 			tmo = 2
 		}
+		split := []bool{rapid.Bool().Draw(t, "split0"), rapid.Bool().Draw(t, "split1")}
 		dies, metaDies, poolDies := false, false, false
 		poolSize := rapid.IntRange(2, 3).Draw(t, "pool_size")
 		for c := range scripts {
@@ -335,6 +348,9 @@ func TestCorrelation(t *testing.T) {
 					}
 				}
 				o.Req = Req{ID: nextID, Mode: mode, After: rapid.Bool().Draw(t, "after")}
+			if mode == mErr && rapid.Bool().Draw(t, "well_known_error") {
+				o.Req.ErrKind = rapid.IntRange(1, len(wellKnown)).Draw(t, "error_value")
+			}
 				nextID++
 				scripts[c] = append(scripts[c], o)
 			}
@@ -399,6 +415,7 @@ func TestCorrelation(t *testing.T) {
 			st := newCalleeState(helper, flooder)
 			states[i] = st
 			calleePID[i], err = node.SpawnRegister(calleeName[i], kit.Factory(&kit.ActorConfig{Label: fmt.Sprintf("callee%d", i), Probe: probe,
+				Split:     split[i], // requests by name and by alias arrive through HandleCallName / HandleCallAlias
 				OnCall:    st.onCall,
 				OnMessage: st.onMessage,
 			}), gen.ProcessOptions{})
@@ -587,7 +604,7 @@ func TestCorrelation(t *testing.T) {
 					// another caller's request may sit in the mailbox of a worker that is terminating
 					continue
 				}
-				accepted := r.err == nil || r.err == gen.ErrTimeout || strings.HasPrefix(r.err.Error(), "callee-error-")
+				accepted := r.err == nil || r.err == gen.ErrTimeout || strings.HasPrefix(r.err.Error(), "callee-error-") || (o.Req.Mode == mErr && r.err.Error() == errOf(o.Req).Error())
 				if accepted && seen[id] != 1 {
 					t.Fatalf("call %s returned (%v, %v) but the callee saw the request %d times", o, r.value, r.err, seen[id])
 				}
@@ -597,7 +614,7 @@ func TestCorrelation(t *testing.T) {
 						t.Fatalf("caller %d: call %s was answered in time but returned %v\n%s", c, o, r.err, sb.String())
 					}
 				case mErr:
-					if r.err == nil || r.err.Error() != errFor(id).Error() {
+					if r.err == nil || r.err.Error() != errOf(o.Req).Error() {
 						t.Fatalf("caller %d: call %s was answered with an error response but returned (%#v, %v)", c, o, r.value, r.err)
 					}
 				case mLate, mNever, mFlood:
